@@ -181,12 +181,13 @@ func c03Run(r *Run, c c03Config) {
 	}{
 		{"burn132v0", goodBurn},
 		{"burn131", goodBurn[:131]},
-		{"burn132v0-amount0", RefBurn(0, token, pad32(mintTo.Addr), big.NewInt(0), distinct32(0x55))}, // the token factory refuses to mint zero
+		{"burn132v0-amount0", RefBurn(0, token, pad32(mintTo.Addr), big.NewInt(0), distinct32(0x55))},                     // the token factory refuses to mint zero
+		{"burn132v0-token-high12-differ", RefBurn(0, c03HighDiffer(token), pad32(mintTo.Addr), amount, distinct32(0x55))}, // not the linked token: only its low 20 bytes agree
 		{"burn133", append(append([]byte{}, goodBurn...), 0)},
 		{"burn132v1", RefBurn(1, token, pad32(mintTo.Addr), amount, distinct32(0x55))},
 	}
 	if quick {
-		burnShapes = burnShapes[:3]
+		burnShapes = burnShapes[:4]
 	}
 	for _, bs := range burnShapes {
 		bodies = append(bodies,
@@ -270,4 +271,13 @@ func c03Run(r *Run, c c03Config) {
 			}
 		}
 	}
+}
+
+// c03HighDiffer: the token with its first 12 bytes inverted (same low 20 bytes).
+func c03HighDiffer(t []byte) []byte {
+	out := append([]byte{}, t...)
+	for i := 0; i < 12 && i < len(out); i++ {
+		out[i] ^= 0xFF
+	}
+	return out
 }
